@@ -50,8 +50,35 @@ pub fn mk(st: &str, e: &Value, hs: &Hs) -> Box<dyn Aml> {
         "notif" => Box::new(mk_notif(&json!({"type": get(get(e, "a"), "type"), "calls": e.get("calls").cloned().unwrap_or(json!([]))}))),
         "qos" => Box::new(mk_qos(e)),
         "gas" => Box::new(mk_gas(get(e, "a"))),
+        "gedata" => Box::new(mk_gedata(e)),
         x => panic!("unknown structure {x}"),
     }
+}
+
+fn mk_gedata(e: &Value) -> acpi_tables::hest::GenericErrorData {
+    use acpi_tables::hest::{ErrorSeverity, GenericErrorData};
+    let a = get(e, "a");
+    let sev = match str_of(get(a, "severity")) {
+        "Recoverable" => ErrorSeverity::Recoverable,
+        "Fatal" => ErrorSeverity::Fatal,
+        "Correctable" => ErrorSeverity::Correctable,
+        "None" => ErrorSeverity::None,
+        x => panic!("severity {x}"),
+    };
+    let mut d = GenericErrorData::new(sev);
+    d.section_type = u16_of(get(a, "section_type"));
+    d.revision = u16_of(get(a, "revision"));
+    d.validation = u8_of(get(a, "validation"));
+    d.flags = u8_of(get(a, "flags"));
+    d.error_data_length = u32_of(get(a, "error_data_length"));
+    d.fru_id = arr_n(get(a, "fru_id"));
+    d.fru_text = arr_n(get(a, "fru_text"));
+    d.timestamp = arr_n(get(a, "timestamp"));
+    let payload = bytes_of(get(a, "data"));
+    if !payload.is_empty() {
+        d.add_data(Box::new(acpi_tables::aml::Name::new_field_name(std::str::from_utf8(&payload).expect("ascii payload"))));
+    }
+    d
 }
 
 pub fn exec(run: u64, prog: &Value, out: &mut Out) {
